@@ -89,7 +89,7 @@ class Random(Component):
     rule = "a must pair at distance>=1 and a q-gram-sharing pair that does not satisfy"
 
     def examples(self, tier):
-        return 200 if tier == "quick" else 2000
+        return 400 if tier == "quick" else 2000
 
     def strategy(self, tier):
         return gen.ed_join_case(tier)
